@@ -44,6 +44,12 @@ pub struct GenCfg {
     pub prototypes: bool,
     /// C18 profile: explicit hardware statements are frequent
     pub hw_dense: bool,
+    /// structure-only profile (C03 source kind, C04, C13, C12 static, C05, C11): every rule that
+    /// keeps the random pools out of the recorded C01 families is lifted, and shapes the safe
+    /// domain never offers are added (nested subscripts, ++/-- in conditions, read-modify-write
+    /// on short-array elements, general 16-bit right-hand sides).  Programs of this profile are
+    /// never judged on what they compute.
+    pub wild: bool,
 }
 
 impl Default for GenCfg {
@@ -78,6 +84,7 @@ impl Default for GenCfg {
             interrupt_handler: false,
             prototypes: false,
             hw_dense: false,
+            wild: false,
         }
     }
 }
@@ -318,7 +325,19 @@ impl<'a> Gen<'a> {
         }
         // R5: an index that is an expression goes through the Y-save path; inside a condition the
         // restore is skipped on the taken branch (known finding ysave_in_condition)
-        if allow_var && r == 8 && self.st_scratch_ok && !self.st_in_cond && !self.st_no_y && !self.st_used_deref && !self.st_used_y {
+        if self.cfg.wild && r >= 8 && self.rng.chance(1, 3) && (!self.arrs.is_empty() || !self.tabs.is_empty()) {
+            // nested subscript: arr[other[Y]] / arr[other[X]] / arr[other[2]]
+            let mut all = self.arrs.clone();
+            all.extend(self.tabs.iter());
+            let a = *self.rng.pick(&all);
+            let i = match self.rng.below(3) {
+                0 => Expr::Lv(LV::X),
+                1 => Expr::Lv(LV::Y),
+                _ => Expr::Num(self.rng.below(4) as i32),
+            };
+            return Expr::Lv(LV::Idx(a, Box::new(i)));
+        }
+        if allow_var && r == 8 && (self.cfg.wild || (self.st_scratch_ok && !self.st_in_cond && !self.st_no_y && !self.st_used_deref && !self.st_used_y)) {
             let s = self.scalars8(false);
             if !s.is_empty() {
                 let v = *self.rng.pick(&s);
@@ -362,7 +381,7 @@ impl<'a> Gen<'a> {
         if r < 65 {
             if self.rng.chance(1, 2) {
                 return Expr::Lv(LV::X);
-            } else if !self.st_no_y && !self.st_used_deref {
+            } else if self.cfg.wild || (!self.st_no_y && !self.st_used_deref) {
                 self.st_used_y = true;
                 return Expr::Lv(LV::Y);
             }
@@ -383,7 +402,7 @@ impl<'a> Gen<'a> {
             }
             // R7: `*p` sets Y to 0 for the whole statement: never together with another use of Y
             // (known finding deref_with_y)
-            if self.rng.chance(1, 3) && self.st_scratch_ok && !self.st_used_y && !self.st_in_cond {
+            if self.rng.chance(1, 3) && (self.cfg.wild || (self.st_scratch_ok && !self.st_used_y && !self.st_in_cond)) {
                 self.st_used_deref = true;
                 self.st_no_y = true;
                 self.st_no_calls = true;
@@ -408,7 +427,13 @@ impl<'a> Gen<'a> {
         }
         if r < 70 && !self.sarrs.is_empty() {
             let a = self.sarrs[0];
-            let i = if self.fc.x_lt > 0 && self.fc.x_lt <= 4 { Expr::Lv(LV::X) } else { Expr::Num(self.rng.below(4) as i32) };
+            let i = if self.cfg.wild && self.rng.chance(1, 2) {
+                if self.rng.chance(1, 2) { Expr::Lv(LV::Y) } else { Expr::Lv(LV::X) }
+            } else if self.fc.x_lt > 0 && self.fc.x_lt <= 4 {
+                Expr::Lv(LV::X)
+            } else {
+                Expr::Num(self.rng.below(4) as i32)
+            };
             return Expr::Lv(LV::Idx(a, Box::new(i)));
         }
         self.const16()
@@ -445,6 +470,9 @@ impl<'a> Gen<'a> {
     /// wide_dest_narrow_expr covers everything else: calls, ?:, comparisons, unary ops and
     /// 8-bit arithmetic assigned to a short).
     fn expr16_safe(&mut self) -> Expr {
+        if self.cfg.wild && self.rng.chance(1, 2) {
+            return self.expr16_wild();
+        }
         let r = self.rng.below(100);
         if r < 30 {
             return self.leaf16();
@@ -477,6 +505,42 @@ impl<'a> Gen<'a> {
             self.leaf16()
         };
         Expr::Bin(op, Box::new(a), Box::new(b))
+    }
+
+    /// wild profile: any right-hand side for a 16-bit destination
+    fn expr16_wild(&mut self) -> Expr {
+        let a = self.leaf16();
+        match self.rng.below(8) {
+            0 => Expr::Un(if self.rng.chance(1, 2) { UnOp::BNot } else { UnOp::Neg }, Box::new(a)),
+            1 => Expr::Bin(if self.rng.chance(1, 2) { BinOp::Shl } else { BinOp::Shr }, Box::new(a), Box::new(Expr::Num(self.rng.range(1, 9) as i32))),
+            2 => {
+                let c = self.cond(1);
+                Expr::Bin(BinOp::Add, Box::new(c), Box::new(a))
+            }
+            3 => {
+                let c = self.cond(1);
+                let b = self.leaf16();
+                Expr::Cond(Box::new(c), Box::new(a), Box::new(b))
+            }
+            4 => {
+                self.st_top = false;
+                let e = self.expr(W::W8, 2);
+                Expr::Bin(*self.rng.pick(&[BinOp::Add, BinOp::Sub, BinOp::Or]), Box::new(a), Box::new(e))
+            }
+            5 => {
+                self.st_top = false;
+                self.expr(W::W8, 2)
+            }
+            6 => match self.call_expr(true) {
+                Some(c) => c,
+                None => a,
+            },
+            _ => {
+                let b = self.leaf16();
+                let c = self.leaf16();
+                Expr::Bin(BinOp::Sub, Box::new(Expr::Bin(BinOp::Add, Box::new(a), Box::new(b))), Box::new(c))
+            }
+        }
     }
 
     pub fn expr(&mut self, w: W, depth: usize) -> Expr {
@@ -526,7 +590,7 @@ impl<'a> Gen<'a> {
             }
             // the signedness the code generator gives to mixed 8-bit arithmetic follows the left
             // operand (known finding mixed_signedness_follows_left): `>>` only on unsigned operands
-            if op == BinOp::Shr && self.has_signed(&a) {
+            if op == BinOp::Shr && self.has_signed(&a) && !self.cfg.wild {
                 a = self.var_leaf8();
             }
             let k = self.rng.range(1, 7) as i32;
@@ -543,7 +607,7 @@ impl<'a> Gen<'a> {
         if r < 82 {
             // R4: a comparison / logical value (0 or 1) only as the whole right-hand side
             // (inside arithmetic the accumulator is pushed twice: known finding cond_value_in_arith)
-            if top && !self.st_in_cond {
+            if (top && !self.st_in_cond) || self.cfg.wild {
                 let save = self.st_in_cond;
                 self.st_in_cond = true;
                 let c = self.cond(depth - 1);
@@ -743,6 +807,10 @@ impl<'a> Gen<'a> {
             let s = self.scalars16();
             let a = *self.rng.pick(&s);
             let b = if self.rng.chance(1, 2) { self.const16() } else { Expr::Lv(LV::Var(*self.rng.pick(&s))) };
+            if self.cfg.wild {
+                let l = if self.rng.chance(1, 3) { self.expr16_wild() } else { Expr::Lv(LV::Var(a)) };
+                return Expr::Bin(op, Box::new(l), Box::new(b));
+            }
             let sa = matches!(self.p.vars[a].kind, VarKind::Scalar(Ty::I16));
             let sb = self.is_signed16(&b);
             if rel && (sa || sb) && self.cfg.excl_signed_relational {
@@ -770,7 +838,13 @@ impl<'a> Gen<'a> {
             let d = if self.rng.chance(1, 5) { 1 } else { 0 };
             self.expr(W::W8, d)
         };
-        if rel && self.cfg.excl_signed_relational {
+        if self.cfg.wild && self.rng.chance(1, 6) {
+            // ++ / -- inside a condition
+            let l = self.dest8();
+            let lhs = Expr::IncDec { lv: l, post: self.rng.chance(2, 3), inc: self.rng.chance(1, 2) };
+            return Expr::Bin(op, Box::new(lhs), Box::new(b));
+        }
+        if rel && self.cfg.excl_signed_relational && !self.cfg.wild {
             // signed relational compares are a known-finding family (no V flag): keep operands unsigned
             let mut guard = 0;
             while self.has_signed(&a) && guard < 8 {
@@ -785,12 +859,12 @@ impl<'a> Gen<'a> {
         }
         // R6: a bare X / Y on the right of an indexed left operand is compared with itself
         // (known finding cmp_indexed_vs_register)
-        if Self::is_xy(&b) && !Self::is_plain(&a) {
+        if Self::is_xy(&b) && !Self::is_plain(&a) && !self.cfg.wild {
             b = self.const8();
         }
         // R3: unsigned relational comparison against literal 0 takes the signed shortcut
         // (known finding unsigned_relational_zero)
-        if rel {
+        if rel && !self.cfg.wild {
             if self.const_val(&b) == Some(0) || self.const_val(&b).map(|v| v & 0xff == 0).unwrap_or(false) {
                 b = Expr::Num(self.rng.range(1, 255) as i32);
             }
@@ -969,7 +1043,13 @@ impl<'a> Gen<'a> {
             return None;
         }
         if !self.sarrs.is_empty() && self.rng.chance(1, 5) {
-            let i = if self.fc.x_lt > 0 && self.fc.x_lt <= 4 { Expr::Lv(LV::X) } else { Expr::Num(self.rng.below(4) as i32) };
+            let i = if self.cfg.wild && self.rng.chance(1, 2) {
+                if self.rng.chance(1, 2) { Expr::Lv(LV::Y) } else { Expr::Lv(LV::X) }
+            } else if self.fc.x_lt > 0 && self.fc.x_lt <= 4 {
+                Expr::Lv(LV::X)
+            } else {
+                Expr::Num(self.rng.below(4) as i32)
+            };
             return Some(LV::Idx(self.sarrs[0], Box::new(i)));
         }
         Some(LV::Var(*self.rng.pick(&s)))
@@ -1054,7 +1134,7 @@ impl<'a> Gen<'a> {
         let use16 = self.cfg.shorts && self.rng.chance(1, 4);
         if use16 {
             if let Some(l) = self.dest16() {
-                if let LV::Idx(..) = l {
+                if let (LV::Idx(..), false) = (&l, self.cfg.wild) {
                     // R10: elements of short arrays: plain stores only (read-modify-write forms on
                     // them are a known finding: short_array_rmw)
                     let s = self.scalars16();
@@ -1067,6 +1147,17 @@ impl<'a> Gen<'a> {
                     return Stmt::Expr(Expr::Assign(l, Box::new(e)));
                 } else if r < 80 {
                     let op = *self.rng.pick(&[BinOp::Add, BinOp::Sub, BinOp::And, BinOp::Or, BinOp::Xor]);
+                    if self.cfg.embedded_side_effects && self.rng.chance(1, 8) {
+                        // s += c++ : the right operand is evaluated once, although the 16-bit
+                        // lowering walks the statement twice (low and high byte)
+                        let c: Vec<VarId> = self.scalars8(false).into_iter().filter(|v| !self.is_const(*v) && !self.is_protected(&LV::Var(*v))).collect();
+                        if !c.is_empty() {
+                            let v = *self.rng.pick(&c);
+                            self.note_write(&LV::Var(v), None);
+                            let e = Expr::IncDec { lv: LV::Var(v), post: self.rng.chance(2, 3), inc: self.rng.chance(1, 2) };
+                            return Stmt::Expr(Expr::OpAssign(op, l, Box::new(e)));
+                        }
+                    }
                     let e = if self.rng.chance(1, 2) {
                         self.leaf16()
                     } else {
@@ -1248,7 +1339,7 @@ impl<'a> Gen<'a> {
         let trip = self.rng.range(1, 5) as i32;
         self.fc.protected.push(cnt.clone());
         self.fc.loop_depth += 1;
-        let kind = self.rng.below(6);
+        let kind = self.rng.below(8);
         let cl = Expr::Lv(cnt.clone());
         self.forget_xy();
         // inside the body the counter is < trip
@@ -1306,6 +1397,25 @@ impl<'a> Gen<'a> {
                     Stmt::For(Some(Expr::Assign(cnt.clone(), Box::new(Expr::Num(0)))), Some(Expr::Bin(BinOp::Lt, Box::new(cl), Box::new(Expr::Num(trip)))), Some(up), Box::new(body))
                 } else {
                     Stmt::For(Some(init), Some(cond), Some(down), Box::new(body))
+                }
+            }
+            6 | 7 => {
+                // while / do-while with the increment FIRST in the body: `continue` is safe there
+                // (it reaches the loop test with the counter already advanced).  Inside the body
+                // the counter is 1..trip, so bodies that index with it keep the for form.
+                if Self::mentions_index(&body, &cnt) {
+                    Stmt::For(Some(init), Some(cond), Some(up), Box::new(body))
+                } else {
+                    let mut v = match body {
+                        Stmt::Block(v) => v,
+                        s => vec![s],
+                    };
+                    v.insert(0, Stmt::Expr(up));
+                    if kind == 6 {
+                        Stmt::Block(vec![Stmt::Expr(init), Stmt::DoWhile(Box::new(Stmt::Block(v)), cond)])
+                    } else {
+                        Stmt::Block(vec![Stmt::Expr(init), Stmt::While(cond, Box::new(Stmt::Block(v)))])
+                    }
                 }
             }
             _ => {
@@ -1386,6 +1496,10 @@ impl<'a> Gen<'a> {
         // R9: the controlling expression is something whose value stays addressable (a computed
         // value in A is compared against `case 0` with stale flags: known finding switch_computed_case0)
         let e = loop {
+            if self.cfg.wild {
+                self.st_top = false;
+                break self.expr(W::W8, 1);
+            }
             let c = self.leaf8();
             if self.has_signed(&c) {
                 continue;
@@ -1429,7 +1543,9 @@ impl<'a> Gen<'a> {
                 let s = self.stmt(nest - 1);
                 body.push(s);
             }
-            if self.rng.chance(3, 4) {
+            if self.fc.loop_depth > 0 && self.rng.chance(1, 6) {
+                body.push(Stmt::Continue); // belongs to the enclosing loop
+            } else if self.rng.chance(3, 4) {
                 body.push(Stmt::Break); // otherwise falls through
             }
             cases.push((vals, body));
@@ -1555,7 +1671,26 @@ impl<'a> Gen<'a> {
         //            `sink` (what they read is the accumulator of an earlier store: not modelled)
         self.st_reset();
         let wo = *self.rng.pick(&self.hw[2..].to_vec());
-        match self.rng.below(11) {
+        match self.rng.below(12) {
+            11 => {
+                // register transfers between two markers: load(X) = TXA, store(Y) = TAY, ...
+                // (each pair copies one register into the other; X and Y must not be loop counters)
+                if self.is_protected(&LV::X) || self.is_protected(&LV::Y) {
+                    return Stmt::Strobe(wo);
+                }
+                self.asm_n += 2;
+                let mut v = vec![Stmt::Asm(format!("NOP ;@I{}", self.asm_n - 1), Some(1))];
+                let n = self.rng.range(1, 3);
+                for _ in 0..n {
+                    let (a, b) = if self.rng.chance(1, 2) { (LV::X, LV::Y) } else { (LV::Y, LV::X) };
+                    v.push(Stmt::Load(Expr::Lv(a.clone())));
+                    // store into the other register, or back into the same one (TAX after TXA)
+                    v.push(Stmt::Store(if self.rng.chance(1, 2) { b } else { a }));
+                }
+                v.push(Stmt::Asm(format!("NOP ;@I{}", self.asm_n), Some(1)));
+                self.forget_xy();
+                Stmt::Block(v)
+            }
             0 => Stmt::Strobe(wo),
             1 => Stmt::Load(Expr::Lv(LV::Deref(self.hw[0]))),
             2 => Stmt::Store(LV::Deref(wo)),
